@@ -99,6 +99,44 @@ def refuses_below(I, query_candidates, table_candidates, label, qlabel):
     return guard_requires(I, cands)
 
 
+def other_refusals(I, query_candidates, table_candidates, label, qlabel, qname='q'):
+    """raise-guards whose test reads the requested radii and that are not the documented refusal (a request below the table minimum): the property promises
+    a value for every other request, in any order, with repeats"""
+    cands = []
+    for qv_ in query_candidates:
+        for tab in table_candidates:
+            mn = mk_fn('min', B(label, tab))
+            cands.append(alg.b_not(mk_fn('any', B(qlabel, lt(qv_, mn)))))
+    out = []
+    for g in I.assumed:
+        if g[4] != 'raise-guard' or len(g) < 6 or not isinstance(g[5], Arr) or g[5].mask is not None:
+            continue
+        if qname not in {str(x_).split('@')[0] for x_ in alg.leaf_syms(g[5].poly)[0]}:
+            continue
+        pre = g[5].poly if g[3] else alg.b_not(g[5].poly)
+        if g[5].ndim == 0 and any(alg.is_zero(pre - c)[0] for c in cands):
+            continue
+        out.append((g, pre))
+    return out
+
+
+def judge_refusals(ctx, rule, inst, where_, extra, table, label, n=3, outside=False):
+    """every other raise guarded by a test on the requested radii is tried on requests the look-up has to serve (knots.guard_verdict)"""
+    from .. import knots
+    if not extra:
+        ctx.ok(rule, inst, where_, 'no other raise is guarded by a test on the requested radii (setters and validators included)')
+        return
+    for g, pre in extra:
+        verdict, what = knots.guard_verdict(pre, 'q', table, label, n, outside)
+        txt = '%s (%s:%s%s)' % (g[2] if not g[3] else 'not (%s)' % g[2], g[0], g[1], (', reached through the %s setter' % g[6].split(':')[1]) if len(g) > 6 else '')
+        if verdict == 'refuses':
+            ctx.violation(rule, inst, where_, 'requests are also refused when %s: %s is refused' % (txt, what), 'other-refusal')
+        elif verdict == 'accepts':
+            ctx.ok(rule, inst, where_, 'the raise guarded by %s refuses none of: requests on one tabulated value, in decreasing order, in increasing order' % txt)
+        else:
+            ctx.undecided(rule, inst, where_, 'a raise is guarded by %s: %s' % (txt, what))
+
+
 def roundtrip_findings(ctx, h, fi, inst):
     """(UNIT-2) the clamp bound must reach the bounds-checked look-up without a unit round trip: table maximum -> request's unit (on assignment into the
     request) -> table's unit (.to before the look-up) does not return the same floating-point number, so a request beyond the table can land one ulp above
@@ -157,6 +195,7 @@ def check_cf_interpolate(ctx):
     okg, seen = refuses_below(I, [q, qc], [cap], A, D)
     ctx.expect(okg, 'CFG-7', 'ConvolvedFluxes.interpolate refuses radii below the table', where_, 'raises when any request < table minimum',
                'no raise guards radii below the smallest aperture (guards: %s)' % seen, 'too-small')
+    judge_refusals(ctx, 'CFG-7', 'ConvolvedFluxes.interpolate refuses nothing else', where_, other_refusals(I, [q, qc], [cap], A, D), cap, A)
     unit_findings(ctx, I, fi, 'ConvolvedFluxes.interpolate comparisons')
     roundtrip_findings(ctx, h, fi, 'ConvolvedFluxes.interpolate clamp bound and look-up in one unit')
     for args, kwargs, r, node in h.i1d:
@@ -174,9 +213,13 @@ def check_cf_interpolate(ctx):
         for attr, tab in (('_flux', sym('flux', M, A)), ('_error', sym('err', M, A))):
             compare(ctx, 'CFG-7', 'ConvolvedFluxes.interpolate single-aperture %s' % attr.lstrip('_'), where_, outs.attrs.get(attr), mk_fn('at', B(A, tab), P(Poly())), (M, D), vocab=VOCAB, fns=FNS,
                     findings=[f for f in Is.findings if f.kind == 'label-clash'], detail_ok='every requested radius gets the single tabulated %s of the model' % attr.lstrip('_'))
-        gs = [g for g in Is.assumed if g[4] == 'raise-guard']
-        ctx.expect(not gs, 'CFG-7', 'ConvolvedFluxes.interpolate single-aperture table accepts every radius', where_, 'no request is refused when the table has one aperture',
-                   'a single-aperture table refuses requests: raise guarded by %s' % (gs[0][2] if gs else ''), 'single-refuses')
+        gs_q = other_refusals(Is, [q], [], A, D)          # tests on the requested radii: tried on requests the look-up has to serve
+        gs = [g for g in Is.assumed if g[4] == 'raise-guard' and (len(g) < 6 or not isinstance(g[5], Arr))]
+        if gs or not gs_q:
+            ctx.expect(not gs, 'CFG-7', 'ConvolvedFluxes.interpolate single-aperture table accepts every radius', where_, 'no request is refused when the table has one aperture',
+                       'a single-aperture table refuses requests: raise guarded by %s' % (gs[0][2] if gs else ''), 'single-refuses')
+        else:
+            judge_refusals(ctx, 'CFG-7', 'ConvolvedFluxes.interpolate single-aperture table accepts every radius', where_, gs_q, cap, A, 1, True)
 
 
 def lookup_by_regions(ctx, rule, inst, where_, fi, mk, attr, tab, cap):
@@ -504,8 +547,11 @@ def variable_details(ctx, pre=None):
 
 
 CF = 'sedfitter/convolved_fluxes/convolved_fluxes.py'
+VA = 'sedfitter/utils/validator.py'
 SE = 'sedfitter/sed/sed.py'
 MUST_FIRE = [
+    ('apertures setter demands increasing values: a request in another order is refused', [(CF, "self._apertures = validate_array('apertures', value, domain='positive', ndim=1, physical_type='length')", "self._apertures = validate_array('apertures', value, domain='increasing', ndim=1, physical_type='length')"),
+        (VA, "            raise ValueError(\"{0} has incorrect shape (expected {1} but found {2})\".format(name, expected_shape, actual_shape))\n\n    return value", "            raise ValueError(\"{0} has incorrect shape (expected {1} but found {2})\".format(name, expected_shape, actual_shape))\n\n    if domain == 'increasing':\n        if np.any(np.diff(value) <= 0.):\n            raise ValueError(\"{0} should be strictly increasing\".format(name))\n\n    return value")]),
     ('SED look-up by searchsorted(side=right): a request on the largest aperture indexes past the table', [(SE, '        # Create interpolating function\n        flux_interp = interp1d(sed_apertures, self.flux.swapaxes(0, 1))\n\n        # If any apertures are larger than the defined max, reset to max\n        apertures[apertures > sed_apertures.max()] = sed_apertures.max()\n\n        # If any apertures are smaller than the defined min, raise Exception\n        if np.any(apertures < sed_apertures.min()):\n            raise Exception("Aperture(s) requested too small")\n\n        return flux_interp(apertures)\n', '        # If any apertures are larger than the defined max, reset to max\n        apertures[apertures > sed_apertures.max()] = sed_apertures.max()\n\n        # If any apertures are smaller than the defined min, raise Exception\n        if np.any(apertures < sed_apertures.min()):\n            raise Exception("Aperture(s) requested too small")\n\n        # segment of the table each request falls in, then the chord of that segment\n        values = self.flux.value\n        upper = np.searchsorted(sed_apertures, apertures, side=\'right\')\n        lower = upper - 1\n        frac = (apertures - sed_apertures[lower]) / (sed_apertures[upper] - sed_apertures[lower])\n        return (values[lower, :] + (values[upper, :] - values[lower, :]) * frac[:, np.newaxis]).transpose()\n')]),
     ('look-up written as a loop over half-open aperture intervals: a request on the largest aperture falls in none', [(CF, '            flux_interp = interp1d(self.apertures, self.flux)\n            c.flux = flux_interp(new_apertures) * self.flux.unit\n\n            # The following is not strictly correct - errors from interpolation is not interpolation of errors\n            error_interp = interp1d(self.apertures, self.error)\n            c.error = error_interp(new_apertures) * self.error.unit\n', '            ap_old = self.apertures.value\n            ap_new = new_apertures.value\n            tables = []\n            for values in (self.flux.value, self.error.value):\n                result = np.zeros((values.shape[0], len(ap_new)))\n                for ia in range(len(ap_old) - 1):\n                    calc = (ap_new >= ap_old[ia]) & (ap_new < ap_old[ia + 1])\n                    frac = (ap_new[calc] - ap_old[ia]) / (ap_old[ia + 1] - ap_old[ia])\n                    result[:, calc] = values[:, ia, np.newaxis] + (values[:, ia + 1] - values[:, ia])[:, np.newaxis] * frac[np.newaxis, :]\n                tables.append(result)\n            c.flux = tables[0] * self.flux.unit\n            c.error = tables[1] * self.error.unit\n')]),
     ('single-aperture SED tiled instead of repeated', [(SE, "return np.repeat(self.flux[0, :], len(apertures)).reshape(self.n_wav, len(apertures))", "return np.tile(self.flux[0, :], len(apertures)).reshape(self.n_wav, len(apertures))")]),
@@ -541,6 +587,7 @@ MUST_FIRE = [
                                                "        if np.any(apertures < sed_apertures.min()):\n            raise Exception(\"Aperture(s) requested too small\")\n\n        result = flux_interp(apertures)\n        apertures[apertures > sed_apertures.max()] = sed_apertures.max()\n        return result")]),
 ]
 MUST_SILENT = [
+    ('validate_array enforces the positive domain it was always passed', [(VA, "            raise ValueError(\"{0} has incorrect shape (expected {1} but found {2})\".format(name, expected_shape, actual_shape))\n\n    return value", "            raise ValueError(\"{0} has incorrect shape (expected {1} but found {2})\".format(name, expected_shape, actual_shape))\n\n    if domain == 'positive':\n        if np.any(value < 0.):\n            raise ValueError(\"{0} should be positive\".format(name))\n\n    return value")]),
     ('SED look-up by searchsorted, the first aperture taken with the first segment', [(SE, '        # Create interpolating function\n        flux_interp = interp1d(sed_apertures, self.flux.swapaxes(0, 1))\n\n        # If any apertures are larger than the defined max, reset to max\n        apertures[apertures > sed_apertures.max()] = sed_apertures.max()\n\n        # If any apertures are smaller than the defined min, raise Exception\n        if np.any(apertures < sed_apertures.min()):\n            raise Exception("Aperture(s) requested too small")\n\n        return flux_interp(apertures)\n', '        # If any apertures are larger than the defined max, reset to max\n        apertures[apertures > sed_apertures.max()] = sed_apertures.max()\n\n        # If any apertures are smaller than the defined min, raise Exception\n        if np.any(apertures < sed_apertures.min()):\n            raise Exception("Aperture(s) requested too small")\n\n        # segment of the table each request falls in, then the chord of that segment\n        values = self.flux.value\n        upper = np.searchsorted(sed_apertures, apertures)\n        upper = np.maximum(upper, 1)\n        lower = upper - 1\n        frac = (apertures - sed_apertures[lower]) / (sed_apertures[upper] - sed_apertures[lower])\n        return (values[lower, :] + (values[upper, :] - values[lower, :]) * frac[:, np.newaxis]).transpose()\n')]),
     ('look-up written as a loop over half-open aperture intervals, the largest aperture set on its own', [(CF, '            flux_interp = interp1d(self.apertures, self.flux)\n            c.flux = flux_interp(new_apertures) * self.flux.unit\n\n            # The following is not strictly correct - errors from interpolation is not interpolation of errors\n            error_interp = interp1d(self.apertures, self.error)\n            c.error = error_interp(new_apertures) * self.error.unit\n', '            ap_old = self.apertures.value\n            ap_new = new_apertures.value\n            tables = []\n            for values in (self.flux.value, self.error.value):\n                result = np.zeros((values.shape[0], len(ap_new)))\n                for ia in range(len(ap_old) - 1):\n                    calc = (ap_new >= ap_old[ia]) & (ap_new < ap_old[ia + 1])\n                    frac = (ap_new[calc] - ap_old[ia]) / (ap_old[ia + 1] - ap_old[ia])\n                    result[:, calc] = values[:, ia, np.newaxis] + (values[:, ia + 1] - values[:, ia])[:, np.newaxis] * frac[np.newaxis, :]\n                result[:, ap_new == ap_old[-1]] = values[:, -1, np.newaxis]\n                tables.append(result)\n            c.flux = tables[0] * self.flux.unit\n            c.error = tables[1] * self.error.unit\n')]),
     ('single-aperture SED repeated along a new axis', [(SE, "return np.repeat(self.flux[0, :], len(apertures)).reshape(self.n_wav, len(apertures))", "return np.repeat(self.flux[0, :, np.newaxis], len(apertures), axis=1)")]),
